@@ -2,9 +2,9 @@ SPECIFICATION Spec
 CONSTANTS
   Topics = {"t1"}
   Chans = {"c1"}
-  PersistAfterDelete = FALSE
+  PersistAfterDelete = TRUE
   MaxKills = 1
-  BackupFirst = FALSE
+  BackupFirst = TRUE
   MaxOps = 4
 INVARIANTS RestartSetWasVisited LoadedWasVisited IdleFileEqualsLive AckedPausePersisted
 PROPERTY FileNeverVanishes
